@@ -146,9 +146,19 @@ func c09r2(c *Ctx) {
 				okOld := isLockedRoots(call.Args[0])
 				okNew := false
 				// (a tail slice named before the call is looked through, provided the sliced list is not written in between)
-				if se, ok := ast.Unparen(originUnwritten(f, call.Args[1], f.Graph().NodeContaining(call.Pos()))).(*ast.SliceExpr); ok && se.High == nil && se.Low != nil {
+				at := f.Graph().NodeContaining(call.Pos())
+				tail := ast.Unparen(originUnwritten(f, call.Args[1], at))
+				if _, isSlice := tail.(*ast.SliceExpr); !isSlice {
+					tail = ast.Unparen(originAt(f, call.Args[1], at))
+				}
+				if se, ok := tail.(*ast.SliceExpr); ok && se.High == nil && se.Low != nil {
 					if f.ObjOf(se.X) != nil && f.ObjOf(se.X) == f.ObjOf(rootsArg) {
-						if l := lenOf(f, se.Low); l != nil && isLockedRoots(l) {
+						l := lenOf(f, se.Low)
+						if l == nil {
+							// the old length kept in a local (`existing := len(locked roots)`)
+							l = lenOf(f, originAt(f, se.Low, f.Graph().NodeContaining(se.Pos())))
+						}
+						if l != nil && isLockedRoots(l) {
 							okNew = true
 						}
 					}
@@ -306,7 +316,7 @@ func c09r3(c *Ctx) {
 func c09r4(c *Ctx) {
 	// the renter-side function that builds an RPCFreeSectorsRequest
 	reqT := c.P.Named("rhp4", "RPCFreeSectorsRequest")
-	for _, f := range c.P.PkgFuncs("rhp") {
+	for _, f := range c.P.Views("rhp", ir.ExpandOpt{Key: "all"}).Roots {
 		var lit *ast.CompositeLit
 		ir.Walk(f.Body, false, func(x ast.Node) {
 			if cl, ok := x.(*ast.CompositeLit); ok && types.Identical(f.TypeOf(cl), reqT) {
@@ -334,26 +344,67 @@ func c09r4(c *Ctx) {
 		g := f.Graph()
 		ln := g.NodeContaining(lit.Pos())
 		// walk the definitions reaching the literal: expect Compact ← (SortFunc in place) ← Clone(param)
-		var cloneN, sortN, compactN *cfgx.Node
+		var cloneN, sortN, compactN, reverseN *cfgx.Node
+		// the list may be normalised under another name and handed back (a helper's variable): the variable sent
+		// and the variables it is a compacted / plain copy of
+		objs := map[types.Object]bool{obj: true}
+		for round := 0; round < 3; round++ {
+			for _, w := range f.WritesIn(f.Body, false) {
+				if w.RHS == nil || !objs[f.ObjOf(w.LHS)] {
+					continue
+				}
+				rhs := ast.Unparen(w.RHS)
+				if call, ok := rhs.(*ast.CallExpr); ok && len(call.Args) == 1 {
+					if fn := f.Callee(call); fn != nil && fn.Pkg() != nil && fn.Pkg().Path() == "slices" && fn.Name() == "Compact" {
+						rhs = ast.Unparen(call.Args[0])
+					}
+				}
+				if o := f.ObjOf(rhs); o != nil {
+					if v, ok := o.(*types.Var); ok && !v.IsField() && !isParamOf(f, v) {
+						objs[o] = true
+					}
+				}
+			}
+		}
+		plainSort := false
 		for _, n := range g.Nodes {
 			if n.AST == nil {
 				continue
 			}
 			for _, call := range f.NodeCalls(n) {
-				if call.Fn == nil || call.Fn.Pkg() == nil || call.Fn.Pkg().Path() != "slices" || len(call.Expr.Args) == 0 || f.ObjOf(call.Expr.Args[0]) != obj {
+				if call.Fn == nil || call.Fn.Pkg() == nil || call.Fn.Pkg().Path() != "slices" || len(call.Expr.Args) == 0 {
+					continue
+				}
+				if call.Fn.Name() == "Clone" {
+					// the clone is what one of the names is defined as
+					for _, w := range f.WritesIn(n.AST, false) {
+						if w.RHS != nil && ast.Unparen(w.RHS) == ast.Expr(call.Expr) && objs[f.ObjOf(w.LHS)] {
+							cloneN = n
+						}
+					}
+					continue
+				}
+				if !objs[f.ObjOf(call.Expr.Args[0])] {
 					continue
 				}
 				switch call.Fn.Name() {
-				case "Clone":
-					cloneN = n
 				case "SortFunc", "Sort":
 					sortN = n
+					plainSort = call.Fn.Name() == "Sort"
 					if call.Fn.Name() == "SortFunc" && !descendingCmp(f, call.Expr) {
 						sortN = nil
 					}
+				case "Reverse":
+					reverseN = n
 				case "Compact":
 					compactN = n
 				}
+			}
+		}
+		if sortN != nil && plainSort {
+			// ascending sort: only together with a reversal between it and the de-duplication
+			if reverseN == nil || compactN == nil || !g.DominatedByNode(reverseN, sortN) || !g.DominatedByNode(compactN, reverseN) {
+				sortN = nil
 			}
 		}
 		switch {
@@ -426,6 +477,8 @@ func c09r5(c *Ctx) {
 			continue
 		}
 		n++
+		// with its helpers and bracket closures expanded (the body may sit behind a lock wrapper)
+		f = c.P.Expand(f, ir.ExpandOpt{Key: "all"})
 		c.VisitGraph(f)
 		ob := c.Ob(f, "roots-carried-over", f.Body.Pos())
 		carried, self := false, ""
@@ -465,4 +518,19 @@ func c09r5(c *Ctx) {
 	if n == 0 {
 		ir.Fail("no repository implementation of Contractor.RenewV2Contract found")
 	}
+}
+
+// isParamOf reports whether v is a parameter of the (root) function f.
+func isParamOf(f *ir.Func, v *types.Var) bool {
+	if f.Type == nil || f.Type.Params == nil {
+		return false
+	}
+	for _, fld := range f.Type.Params.List {
+		for _, nm := range fld.Names {
+			if f.Info().Defs[nm] == types.Object(v) {
+				return true
+			}
+		}
+	}
+	return false
 }
